@@ -792,12 +792,7 @@ func c11Plan(ctx *core.Ctx, rows []c11Row) []c11Scenario {
 				}
 			}
 		} else {
-			// every size of the cheap systems, one (rotating) size of the expensive ones
-			// (the iteration families re-use one honest proof and only verify: all their sizes)
-			if (r.Sys == "dln" || r.Sys == "mod") && !strings.HasPrefix(r.Family, "iteration_") {
-				add(r, r.Sizes[int(ctx.Seed)%len(r.Sizes)], curves[0])
-				continue
-			}
+			// every size once
 			for k, sz := range r.Sizes {
 				add(r, sz, curves[(k+int(ctx.Seed))%len(curves)])
 			}
